@@ -1688,3 +1688,67 @@ func rawOnlyUnderUnsafe(sc *SC, rule, consequence string) {
 		R.OK(rule, "raw:none", "(*Policy).sanitize: writes of raw token data", "", "none")
 	}
 }
+
+// projectionJoin: v = strings.Join(list, sep) where list starts empty and grows only by appends of unmodified elements of
+// strings.Fields(x) / strings.Split(x, …) — the value is a selection of the old value's own tokens (the sandbox token
+// filter).  A list of re-written parts (each URL of a srcset passed through validURL, say) is not a projection.
+func projectionJoin(v ssa.Value) bool {
+	j := isCallTo(v, "strings.Join")
+	if j == nil {
+		return false
+	}
+	seen := map[ssa.Value]bool{}
+	var walk func(x ssa.Value, d int) bool
+	walk = func(x ssa.Value, d int) bool {
+		if seen[x] {
+			return true
+		}
+		seen[x] = true
+		if d > 12 {
+			return false
+		}
+		switch t := x.(type) {
+		case *ssa.Const:
+			return t.IsNil()
+		case *ssa.MakeSlice:
+			k, ok := t.Len.(*ssa.Const)
+			return ok && k.Int64() == 0
+		case *ssa.Slice:
+			_, fresh := t.X.(*ssa.Alloc)
+			return fresh
+		case *ssa.Phi:
+			for _, e := range t.Edges {
+				if !walk(e, d+1) {
+					return false
+				}
+			}
+			return true
+		case *ssa.Call:
+			ac, base := model.IsAppend(t)
+			if ac == nil {
+				return false
+			}
+			el := model.AppendedValue(ac)
+			u, ok := el.(*ssa.UnOp)
+			if !ok {
+				return false
+			}
+			ia, ok := u.X.(*ssa.IndexAddr)
+			if !ok {
+				return false
+			}
+			src, ok := ia.X.(*ssa.Call)
+			if !ok || src.Common().StaticCallee() == nil {
+				return false
+			}
+			switch pa.CalleeName(src.Common().StaticCallee()) {
+			case "strings.Fields", "strings.Split", "strings.FieldsFunc":
+			default:
+				return false
+			}
+			return walk(base, d+1)
+		}
+		return false
+	}
+	return walk(j.Common().Args[0], 0)
+}
